@@ -55,6 +55,16 @@ func c12Gen(r *driver.Rand, thorough bool) *driver.Plan {
 	if k > 0 && r.Chance(1, 10) {
 		p.SetX("dup_input", 1) // the first input is passed to Join twice
 	}
+	if p.X("uses") == 0 && r.Chance(1, 5) {
+		p.SetX("late_build", 1+r.Intn(20)) // some inputs may already be closed, or full, when Join is called
+	}
+	if k > 0 && r.Chance(1, 400) {
+		// a long backlog in a big buffer
+		i := r.Intn(k)
+		p.Inputs[i] = elems(i, driver.Pick(r, 1025, 3000))
+		p.InCaps[i] = 4096
+		p.SetX("late_build", 40)
+	}
 	return p
 }
 
@@ -132,7 +142,7 @@ func c12Final(e *driver.Env) {
 		for i, in := range p.Inputs {
 			var got []int
 			for _, v := range s.Out.Values() {
-				if v/1000 == i {
+				if v/stride == i {
 					got = append(got, v)
 				}
 			}
